@@ -537,4 +537,22 @@ example : (runRoot2 0 (.concat (.cons (.cached 1 (.orig [97, 59, 98, 10, 99] [10
     ∧ RootHyp2 0 (.concat (.cons (.cached 1 (.orig [97, 59, 98, 10, 99] [102])) (.cons (.rawStr [120]) .nil))) := by
   refine ⟨by decide, ⟨by simp [Src.NoCR, SrcList.NoCRs], by decide, by decide, fun _ _ => rfl⟩⟩
 
+/-! ## the boundary: a CachedSource beneath a ReplaceSource (known finding K5) -/
+
+/-- the witness of K5: `ReplaceSource(CachedSource(ConcatSource[RawBufferSource(";"), SourceMapSource("b", "CAAC")]))` with `"\n"`
+inserted at 0; `source()` is `"\n;b"` -/
+def k5Witness : Src :=
+  .replace (.cached 0 (.concat (.cons (.rawBuf [59] [59]) (.cons (.sms [98] [115] ⟨[67, 65, 65, 67], [[115]], [], [], none, none, none⟩ none none false) .nil))))
+    [⟨0, 0, [10], none, 1⟩]
+
+/-- **the hypothesis `Src.NoCR` of the every-history theorems cannot be dropped — the property itself fails there** (known finding
+K5, same witness replayed against the crate on every run: `corpus/C03/k5.case`): on `k5Witness` the first
+`get_map(columns = false)` leaves generated line 1 (the inserted line break) unmapped, the second — the CachedSource now answers its
+normal-mode stream from the lines-only map the first call stored, which attributes whole lines — maps it to file "s", line 1. -/
+theorem c10_k5_witness :
+    k5Witness.src = [10, 59, 98] ∧ ¬ k5Witness.NoCR ∧ k5Witness.ids.Nodup
+    ∧ ((getMap k5Witness ⟨false, false⟩ []).1.map fun m => LNameM m 1) = some none
+    ∧ ((getMap k5Witness ⟨false, false⟩ (getMap k5Witness ⟨false, false⟩ []).2).1.map fun m => LNameM m 1) = some (some (some [115], 1)) := by
+  refine ⟨by decide +kernel, by simp [k5Witness, Src.NoCR, Src.NoCached], by decide +kernel, by decide +kernel, by decide +kernel⟩
+
 end Rs
